@@ -44,8 +44,8 @@ def bounds(tier, seed):
 
 
 def cases(tier, seed):
-    for nn in (2, 3):
-        for ne in (2, 3, 4):
+    for nn in ((2, 3) if tier == "quick" else (2, 3, 4, 5)):
+        for ne in ((2, 3, 4) if tier == "quick" else (2, 3, 4, 5, 7)):
             ncell = nn * ne
             if ncell <= 6:
                 subs = [list(s) for k in range(0, ncell + 1) for s in itertools.combinations(range(ncell), k)]
